@@ -58,6 +58,18 @@ up)
   ip netns exec $(ns 0) sysctl -qw net.ipv4.icmp_ratelimit=0
   # a black hole behind the last router: 10.<100+N>.0.77 is routed up to rN and dropped there without any answer
   ip -n $(ns $N) route add blackhole 10.$((100+N)).0.77/32
+  # an asymmetric return path: a second link tracer -- r1 (10.99.0.1 / 10.99.0.2); r1 sends everything for the tracer's primary
+  # address back over it, so answers arrive on another interface than the one the probes left through
+  if [ -n "${LAB_ASYM:-}" ] && [ "${LAB_ASYM}" != "0" ]; then
+    ip link add ${P}s0 netns $(ns 0) type veth peer name ${P}s1 netns $(ns 1)
+    ip -n $(ns 0) addr add 10.99.0.1/24 dev ${P}s0; ip -n $(ns 0) link set ${P}s0 up
+    ip -n $(ns 1) addr add 10.99.0.2/24 dev ${P}s1; ip -n $(ns 1) link set ${P}s1 up
+    ip netns exec $(ns 0) sysctl -qw net.ipv4.conf.all.rp_filter=0 net.ipv4.conf.default.rp_filter=0 net.ipv4.conf.${P}s0.rp_filter=0 net.ipv4.conf.${P}a0.rp_filter=0
+    m0=$(ip netns exec $(ns 0) cat /sys/class/net/${P}s0/address); m1=$(ip netns exec $(ns 1) cat /sys/class/net/${P}s1/address)
+    ip -n $(ns 0) neigh replace 10.99.0.2 lladdr $m1 dev ${P}s0 nud permanent
+    ip -n $(ns 1) neigh replace 10.99.0.1 lladdr $m0 dev ${P}s1 nud permanent
+    ip -n $(ns 1) route add 10.100.0.1/32 via 10.99.0.1 dev ${P}s1
+  fi
   # a rejecting firewall: router $LAB_REJECT refuses to forward UDP and says so (port unreachable, the default of -j REJECT)
   if [ -n "${LAB_REJECT:-}" ] && [ "${LAB_REJECT}" != "0" ]; then
     ip netns exec $(ns $LAB_REJECT) iptables -A FORWARD -p udp -j REJECT
